@@ -137,6 +137,8 @@ pub struct Client {
     /// for every state the client has been in: the step at which it was entered last
     pub entered_at: HashMap<StateKey, usize>,
     pub pending_props: Vec<usize>,
+    /// proposals held pending, per state (a rollback restores the queue of that state)
+    pub props_by_state: HashMap<StateKey, Vec<usize>>,
     pub own_pending: Option<usize>,
     pub delivered: HashMap<usize, DeliveryRec>,
     pub immediate: Vec<usize>,
@@ -173,6 +175,28 @@ pub enum Class {
     Crafted,
 }
 
+/// What a commit / proposal event names (known to the harness because it made the call).
+#[derive(Clone, Debug, Default, PartialEq, Eq)]
+pub struct Named {
+    pub added: Vec<String>,
+    pub removed: Vec<String>,
+    pub data_change: bool,
+    /// members whose own leave request this (auto-)commit carries out
+    pub leave_of: Vec<String>,
+    pub proposes_remove: Vec<String>,
+    pub proposes_add: Vec<String>,
+    pub identity_change: bool,
+    pub rogue: Option<String>,
+}
+
+/// A rumor whose author / id fields were chosen by a malicious member.
+#[derive(Clone, Debug, PartialEq, Eq)]
+pub struct Forged {
+    pub claimed_pubkey: String,
+    pub preset_id: Option<String>,
+    pub collides_with: Option<usize>,
+}
+
 #[derive(Clone, Debug)]
 pub struct RelayEvent {
     pub ev: Event,
@@ -188,6 +212,12 @@ pub struct RelayEvent {
     pub auto_commit: bool,
     /// the author cleared this pending commit before anyone saw it (publish failed)
     pub withdrawn: bool,
+    pub named: Named,
+    pub forged: Option<Forged>,
+    /// this event re-wraps the MLS ciphertext of another relay event
+    pub replay_of: Option<usize>,
+    /// for events of another group than the world's main one
+    pub other_group: bool,
 }
 
 #[derive(Clone, Debug)]
@@ -334,6 +364,34 @@ pub enum Op {
     Restart {
         m: u16,
     },
+    /// a commit built directly with OpenMLS by client `m` (whatever its role)
+    RogueCommit {
+        m: u16,
+        kind: crate::rogue::RogueCommit,
+        ts: u8,
+        target: u16,
+    },
+    RogueProposal {
+        m: u16,
+        kind: crate::rogue::RogueProposal,
+        ts: u8,
+        target: u16,
+    },
+    /// a message whose rumor carries a chosen pubkey (0 own, 1 another member, 2 outsider)
+    /// and a chosen id (0 none, 1 random, 2 id of a stored message of another author,
+    /// 3 id of an own earlier message)
+    RogueMsg {
+        m: u16,
+        pubkey_sel: u8,
+        id_sel: u8,
+        sel: u16,
+        kind: u8,
+    },
+    /// re-wrap the MLS ciphertext of an event client `m` can open in a fresh wrapper
+    Replay {
+        m: u16,
+        sel: u16,
+    },
 }
 
 #[derive(Clone, Copy, Debug, PartialEq, Eq, Hash, Serialize, Deserialize)]
@@ -421,7 +479,7 @@ pub trait Observer {
         _w: &World,
         _who: usize,
         _idx: usize,
-        _before: Option<&Full>,
+        _before: Option<&Vec<Full>>,
         _outcome: &Outcome,
         _redelivery: bool,
     ) -> Result<(), Failure> {
@@ -454,6 +512,8 @@ pub struct World {
     pub reference: Option<usize>,
     pub first_spare: usize,
     pub gid: GroupId,
+    /// further groups some clients are in (for cross-group checks)
+    pub extra_gids: Vec<GroupId>,
     pub relay: Vec<RelayEvent>,
     pub welcomes: Vec<WelcomeRec>,
     pub t0: u64,
@@ -468,6 +528,7 @@ pub struct World {
     pub setup: Setup,
     /// no exclusion of known findings by construction (witness runs)
     pub strict: bool,
+    pub debug_logs: bool,
 }
 
 pub fn relay_url(n: u8) -> RelayUrl {
@@ -551,6 +612,7 @@ impl World {
                 reached: HashSet::new(),
                 entered_at: HashMap::new(),
                 pending_props: vec![],
+                props_by_state: HashMap::new(),
                 own_pending: None,
                 delivered: HashMap::new(),
                 immediate: vec![],
@@ -601,6 +663,7 @@ impl World {
             },
             first_spare: n_members + n_ref,
             gid,
+            extra_gids: vec![],
             relay: vec![],
             welcomes: vec![],
             t0,
@@ -617,6 +680,7 @@ impl World {
             },
             setup: setup.clone(),
             strict: false,
+            debug_logs: std::env::var("VCHECK_LOGS").is_ok(),
         };
         // deliver the initial welcomes
         for (k, rumor) in res.welcome_rumors.iter().enumerate() {
@@ -699,6 +763,15 @@ impl World {
         on_mdk!(self.clients[i].mdk(), m => fp::full(m, &self.gid))
     }
 
+    /// fingerprints of every group known to the world at client `i` (main group first)
+    pub fn full_all(&self, i: usize) -> Vec<Full> {
+        let mut v = vec![self.full(i)];
+        for g in &self.extra_gids {
+            v.push(on_mdk!(self.clients[i].mdk(), m => fp::full(m, g)));
+        }
+        v
+    }
+
     pub fn level(&self, i: usize) -> Result<Option<GroupLevel>, String> {
         on_mdk!(self.clients[i].mdk(), m => fp::group_level(m, &self.gid))
     }
@@ -718,7 +791,13 @@ impl World {
             c.evicted_at = Some(step);
         }
         if key != c.cur {
-            c.pending_props.clear();
+            if let Some(old) = &c.cur {
+                c.props_by_state.insert(old.clone(), c.pending_props.clone());
+            }
+            c.pending_props = key
+                .as_ref()
+                .and_then(|k| c.props_by_state.get(k).cloned())
+                .unwrap_or_default();
             if let Some(k) = &key {
                 c.reached.insert(k.clone());
                 c.entered_at.insert(k.clone(), step);
@@ -791,6 +870,10 @@ impl World {
             what,
             auto_commit,
             withdrawn: false,
+            named: Named::default(),
+            forged: None,
+            replay_of: None,
+            other_group: false,
         });
         idx
     }
@@ -891,10 +974,14 @@ impl World {
             .unwrap_or(false)
     }
 
+    /// members as client `i` sees them, ordered by client index (not by random key) so that
+    /// selectors mean the same thing in every run of a plan
     pub fn local_members(&self, i: usize) -> Vec<String> {
-        on_mdk!(self.clients[i].mdk(), m => m.get_members(&self.gid))
+        let mut v: Vec<String> = on_mdk!(self.clients[i].mdk(), m => m.get_members(&self.gid))
             .map(|s| s.iter().map(|p| p.to_hex()).collect())
-            .unwrap_or_default()
+            .unwrap_or_default();
+        v.sort_by_key(|p| self.client_by_pk(p).unwrap_or(usize::MAX));
+        v
     }
 
     pub fn client_by_pk(&self, pk_hex: &str) -> Option<usize> {
@@ -975,6 +1062,7 @@ impl World {
                     Ok(res) => {
                         let idx =
                             self.publish_commit(m, base, res, "self_update".into(), false, &[]);
+                        self.relay[idx].named = Named::default();
                         self.count("op:self_update");
                         obs.after_call(self, m, "self_update")?;
                         self.after_commit_created(m, idx, *apply, obs)?;
@@ -1082,6 +1170,10 @@ impl World {
                             false,
                             &[],
                         );
+                        self.relay[idx].named = Named {
+                            data_change: true,
+                            ..Named::default()
+                        };
                         self.count("op:update_group_data");
                         obs.after_call(self, m, "update_group_data")?;
                         self.after_commit_created(m, idx, *apply, obs)?;
@@ -1124,6 +1216,10 @@ impl World {
                             false,
                             &[j],
                         );
+                        self.relay[idx].named = Named {
+                            added: vec![self.clients[j].pk_hex()],
+                            ..Named::default()
+                        };
                         self.count("op:add_members");
                         obs.after_call(self, m, "add_members")?;
                         self.after_commit_created(m, idx, *apply, obs)?;
@@ -1164,7 +1260,7 @@ impl World {
                 mdk_core::verif::set_wrapper_created_at(None);
                 match r {
                     Ok(res) => {
-                        let who = self.client_by_pk(&t).map(|i| format!("c{i}")).unwrap_or(t);
+                        let who = self.client_by_pk(&t).map(|i| format!("c{i}")).unwrap_or(t.clone());
                         let idx = self.publish_commit(
                             m,
                             base,
@@ -1173,6 +1269,10 @@ impl World {
                             false,
                             &[],
                         );
+                        self.relay[idx].named = Named {
+                            removed: vec![t.clone()],
+                            ..Named::default()
+                        };
                         self.count("op:remove_members");
                         obs.after_call(self, m, "remove_members")?;
                         self.after_commit_created(m, idx, *apply, obs)?;
@@ -1194,7 +1294,7 @@ impl World {
                 mdk_core::verif::set_wrapper_created_at(None);
                 match r {
                     Ok(res) => {
-                        self.publish(
+                        let idx = self.publish(
                             m,
                             Class::Proposal,
                             base,
@@ -1204,6 +1304,10 @@ impl World {
                             "leave_group".into(),
                             false,
                         );
+                        self.relay[idx].named = Named {
+                            proposes_remove: vec![self.clients[m].pk_hex()],
+                            ..Named::default()
+                        };
                         self.count("op:leave_group");
                     }
                     Err(e) => {
@@ -1317,8 +1421,258 @@ impl World {
                 self.restart(m)?;
                 obs.after_call(self, m, "restart")?;
             }
+            Op::RogueCommit { m, kind, ts, target } => {
+                let Some(m) = self.active_sel(*m) else {
+                    return Ok(());
+                };
+                self.rogue_commit(m, *kind, *ts, *target);
+            }
+            Op::RogueProposal { m, kind, ts, target } => {
+                let Some(m) = self.active_sel(*m) else {
+                    return Ok(());
+                };
+                self.rogue_proposal(m, *kind, *ts, *target);
+            }
+            Op::RogueMsg { m, pubkey_sel, id_sel, sel, kind } => {
+                let Some(m) = self.active_sel(*m) else {
+                    return Ok(());
+                };
+                self.rogue_msg(m, *pubkey_sel, *id_sel, *sel, *kind);
+                self.refresh(m);
+            }
+            Op::Replay { m, sel } => {
+                let Some(m) = self.active_sel(*m) else {
+                    return Ok(());
+                };
+                self.replay(m, *sel);
+            }
         }
         Ok(())
+    }
+
+    fn target_identity(&self, m: usize, target: u16, allow_self: bool) -> Option<String> {
+        let members = self.local_members(m);
+        let own = self.clients[m].pk_hex();
+        let refpk = self.reference.map(|r| self.clients[r].pk_hex());
+        let c: Vec<String> = members
+            .into_iter()
+            .filter(|p| (allow_self || *p != own) && Some(p.clone()) != refpk)
+            .collect();
+        pick(target, c.len()).map(|k| c[k].clone())
+    }
+
+    fn outsider_key_package(&mut self) -> Option<(usize, openmls::prelude::KeyPackage)> {
+        // an identity that is not in the group from anybody's point of view
+        let j = (self.first_spare..self.clients.len())
+            .find(|i| !self.invited.contains(i) && self.clients[*i].mdk.is_some())?;
+        let ev = Self::make_key_package(&self.clients[j]).ok()?;
+        let kp = on_mdk!(self.clients[j].mdk(), mm => mm.parse_key_package(&ev)).ok()?;
+        Some((j, kp))
+    }
+
+    pub fn rogue_commit(&mut self, m: usize, kind: crate::rogue::RogueCommit, ts: u8, target: u16) {
+        use crate::rogue::RogueCommit as K;
+        // building a rogue commit replaces (and then clears) the client's pending commit; a
+        // client with an honest commit in flight is left alone
+        if self.clients[m].own_pending.is_some() {
+            return;
+        }
+        let gid = self.gid.clone();
+        let base = self.clients[m].cur.clone();
+        let own = self.clients[m].pk_hex();
+        let mut named = Named {
+            rogue: Some(format!("{kind:?}")),
+            ..Named::default()
+        };
+        let mut tgt = None;
+        let mut kp = None;
+        match kind {
+            K::Add => {
+                let Some((j, k)) = self.outsider_key_package() else { return };
+                named.added = vec![self.clients[j].pk_hex()];
+                kp = Some(k);
+            }
+            K::Remove | K::Mixed => {
+                let Some(t) = self.target_identity(m, target, false) else { return };
+                named.removed = vec![t.clone()];
+                tgt = Some(t);
+            }
+            K::GceRename | K::GceSelfPromote => named.data_change = true,
+            K::ForeignIdentity => {
+                let Some(t) = self.target_identity(m, target, false) else { return };
+                named.identity_change = true;
+                tgt = Some(t);
+            }
+            K::PendingByRef => {
+                // it carries whatever the client holds
+                for d in self.clients[m].pending_props.clone() {
+                    named.removed.extend(self.relay[d].named.proposes_remove.clone());
+                    named.added.extend(self.relay[d].named.proposes_add.clone());
+                }
+            }
+            K::SelfUpdate | K::Empty => {}
+        }
+        let built = on_mdk!(self.clients[m].mdk(), mm => crate::rogue::build_commit(mm, &gid, kind, tgt.as_deref(), kp));
+        let built = match built {
+            Ok(b) => b,
+            Err(e) => {
+                self.note(format!("c{m} rogue commit {kind:?} could not be built: {e}"));
+                self.count("rogue:build-failed");
+                return;
+            }
+        };
+        let ev = match crate::rogue::wrap_445(&built.secret, &built.nostr_group_id, &built.mls_bytes, self.t0 + ts as u64) {
+            Ok(e) => e,
+            Err(_) => return,
+        };
+        let deps = if kind == K::PendingByRef { self.clients[m].pending_props.clone() } else { vec![] };
+        let idx = self.publish(m, Class::Commit, base, deps, ev, None, format!("rogue commit {kind:?} by {}", &own[..6]), false);
+        self.relay[idx].named = named;
+        self.count(&format!("rogue:commit:{kind:?}"));
+    }
+
+    pub fn rogue_proposal(&mut self, m: usize, kind: crate::rogue::RogueProposal, ts: u8, target: u16) {
+        use crate::rogue::RogueProposal as K;
+        if self.clients[m].own_pending.is_some() {
+            return;
+        }
+        let gid = self.gid.clone();
+        let base = self.clients[m].cur.clone();
+        let own = self.clients[m].pk_hex();
+        let mut named = Named {
+            rogue: Some(format!("{kind:?}")),
+            ..Named::default()
+        };
+        let mut tgt = None;
+        let mut kp = None;
+        match kind {
+            K::Remove => {
+                let Some(t) = self.target_identity(m, target, false) else { return };
+                named.proposes_remove = vec![t.clone()];
+                tgt = Some(t);
+            }
+            K::Add => {
+                let Some((j, k)) = self.outsider_key_package() else { return };
+                named.proposes_add = vec![self.clients[j].pk_hex()];
+                kp = Some(k);
+            }
+            K::GceRename | K::SelfUpdate => {}
+        }
+        let built = on_mdk!(self.clients[m].mdk(), mm => crate::rogue::build_proposal(mm, &gid, kind, tgt.as_deref(), kp));
+        let built = match built {
+            Ok(b) => b,
+            Err(e) => {
+                self.note(format!("c{m} rogue proposal {kind:?} could not be built: {e}"));
+                self.count("rogue:build-failed");
+                return;
+            }
+        };
+        let Ok(ev) = crate::rogue::wrap_445(&built.secret, &built.nostr_group_id, &built.mls_bytes, self.t0 + ts as u64) else { return };
+        let idx = self.publish(m, Class::Proposal, base, vec![], ev, None, format!("rogue proposal {kind:?} by {}", &own[..6]), false);
+        self.relay[idx].named = named;
+        self.count(&format!("rogue:proposal:{kind:?}"));
+    }
+
+    pub fn rogue_msg(&mut self, m: usize, pubkey_sel: u8, id_sel: u8, sel: u16, kind: u8) {
+        let gid = self.gid.clone();
+        let own = self.clients[m].keys.public_key();
+        let claimed = match pubkey_sel % 3 {
+            0 => own,
+            1 => {
+                let Some(t) = self.target_identity(m, sel, false) else { return };
+                match nostr::PublicKey::from_hex(&t) {
+                    Ok(p) => p,
+                    Err(_) => return,
+                }
+            }
+            _ => Keys::generate().public_key(),
+        };
+        let canary = format!("forged-{}-{}", self.step, m);
+        let mut rumor = EventBuilder::new(Kind::Custom(9 + (kind % 3) as u16), canary.clone())
+            .custom_created_at(Timestamp::from_secs(self.t0 + 100 + (kind % 3) as u64))
+            .build(claimed);
+        let mut collides_with = None;
+        match id_sel % 4 {
+            0 => rumor.id = None,
+            1 => {
+                let mut h = Sha256::new();
+                h.update(canary.as_bytes());
+                let d: [u8; 32] = h.finalize().into();
+                rumor.id = Some(EventId::from_byte_array(d));
+            }
+            k => {
+                // id of an existing message: of another author (2) or of the own (3)
+                let cands: Vec<usize> = (0..self.relay.len())
+                    .filter(|&i| self.relay[i].class == Class::App && self.relay[i].rumor.is_some() && self.relay[i].forged.is_none())
+                    .filter(|&i| (self.relay[i].author == m) == (k == 3))
+                    .collect();
+                let Some(c) = pick(sel, cands.len()) else { return };
+                rumor.id = self.relay[cands[c]].rumor.as_ref().and_then(|r| r.id);
+                collides_with = Some(cands[c]);
+            }
+        }
+        let base = self.clients[m].cur.clone();
+        self.set_ts(10);
+        let r = on_mdk!(self.clients[m].mdk(), mm => mm.create_message(&gid, rumor.clone()));
+        mdk_core::verif::set_wrapper_created_at(None);
+        if let Ok(ev) = r {
+            let mut stored = rumor.clone();
+            stored.ensure_id();
+            let idx = self.publish(m, Class::App, base, vec![], ev, Some(stored.clone()), canary, false);
+            self.relay[idx].forged = Some(Forged {
+                claimed_pubkey: claimed.to_hex(),
+                preset_id: rumor.id.map(|i| i.to_hex()),
+                collides_with,
+            });
+            self.count(&format!("rogue:msg:pubkey{}:id{}", pubkey_sel % 3, id_sel % 4));
+        }
+    }
+
+    /// client `m` opens an event it can open and publishes the same MLS ciphertext in a
+    /// fresh wrapper (new nonce, new ephemeral signer, new outer id)
+    pub fn replay(&mut self, m: usize, sel: u16) {
+        let gid = self.gid.clone();
+        let cands: Vec<usize> = (0..self.relay.len())
+            .filter(|&i| !self.relay[i].withdrawn && self.relay[i].replay_of.is_none())
+            .collect();
+        let Some(k) = pick(sel, cands.len()) else { return };
+        let src = cands[k];
+        let cur_epoch = self.clients[m].cur.as_ref().map(|c| c.epoch).unwrap_or(0);
+        let mut opened = None;
+        for e in (0..=cur_epoch).rev() {
+            let sec = on_mdk!(self.clients[m].mdk(), mm => crate::rogue::stored_exporter_secret(mm, &gid, e));
+            if let Some(sec) = sec {
+                if let Some(bytes) = crate::rogue::unwrap_445(&sec, &self.relay[src].ev) {
+                    opened = Some((sec, bytes));
+                    break;
+                }
+            }
+        }
+        let Some((sec, bytes)) = opened else { return };
+        let nostr_gid = {
+            let tag_hex = self.relay[src]
+                .ev
+                .tags
+                .iter()
+                .find(|t| t.kind() == nostr::TagKind::h())
+                .and_then(|t| t.content())
+                .unwrap_or("")
+                .to_string();
+            let mut a = [0u8; 32];
+            match hex::decode(&tag_hex) {
+                Ok(v) if v.len() == 32 => a.copy_from_slice(&v),
+                _ => return,
+            }
+            a
+        };
+        let ts = self.relay[src].ev.created_at.as_secs();
+        let Ok(ev) = crate::rogue::wrap_445(&sec, &nostr_gid, &bytes, ts) else { return };
+        let e = self.relay[src].clone();
+        let idx = self.publish(m, e.class, e.base.clone(), e.deps.clone(), ev, e.rumor.clone(), format!("replay of #{src} ({})", e.what), false);
+        self.relay[idx].named = e.named.clone();
+        self.relay[idx].forged = e.forged.clone();
+        self.relay[idx].replay_of = Some(src);
+        self.count("rogue:replay");
     }
 
     pub fn restart(&mut self, m: usize) -> Result<(), Failure> {
@@ -1412,6 +1766,8 @@ impl World {
         }
         (0..self.relay.len())
             .filter(|i| !self.relay[*i].withdrawn)
+            // what an attacker's own client does with its own crafted events is not judged
+            .filter(|i| !(self.relay[*i].named.rogue.is_some() && self.relay[*i].author == m))
             .filter(|i| c.delivered.contains_key(i) == again)
             .filter(|i| again || self.regime == Regime::Unrestricted || self.causally_ok(m, *i))
             .collect()
@@ -1446,7 +1802,7 @@ impl World {
         let before_key = self.clients[m].cur.clone();
         let redelivery = self.clients[m].delivered.contains_key(&idx);
         let before_full = if obs.wants_before() {
-            Some(self.full(m))
+            Some(self.full_all(m))
         } else {
             None
         };
@@ -1467,9 +1823,18 @@ impl World {
         let was_active = self.clients[m].cur.is_some();
         // auto-commits get a plan-determined timestamp as well
         mdk_core::verif::set_wrapper_created_at(Some(self.t0 + (self.step as u64 % 6)));
+        let debug_logs = self.debug_logs;
+        if debug_logs {
+            crate::logcap::start();
+        }
         let r = catch_unwind(AssertUnwindSafe(
             || on_mdk!(self.clients[m].mdk(), mm => mm.process_message(&ev)),
         ));
+        if debug_logs {
+            for l in crate::logcap::stop() {
+                self.note(format!("    log {} {}: {}", l.level, l.target, l.text));
+            }
+        }
         mdk_core::verif::set_wrapper_created_at(None);
         let mut emitted: Option<UpdateGroupResult> = None;
         let outcome = match r {
@@ -1518,7 +1883,9 @@ impl World {
         }
         self.collect_rollbacks(m, &before_key, &outcome);
         // tracking of proposals the client now holds
-        if matches!(outcome, Outcome::PendingProposal | Outcome::AutoCommit) && !redelivery {
+        if matches!(outcome, Outcome::PendingProposal | Outcome::AutoCommit)
+            && !self.clients[m].pending_props.contains(&idx)
+        {
             self.clients[m].pending_props.push(idx);
         }
         let held = self.clients[m].pending_props.clone();
@@ -1539,7 +1906,17 @@ impl World {
         if let Some(u) = emitted {
             let what = format!("auto-commit of proposal #{idx}");
             let b = self.clients[m].cur.clone();
-            self.publish_commit(m, b, u, what, true, &[]);
+            let ci = self.publish_commit(m, b, u, what, true, &[]);
+            let mut leavers = vec![];
+            for d in self.relay[ci].deps.clone() {
+                if self.relay[d].what == "leave_group" {
+                    leavers.extend(self.relay[d].named.proposes_remove.clone());
+                }
+            }
+            self.relay[ci].named = Named {
+                leave_of: leavers,
+                ..Named::default()
+            };
             self.count("auto-commit");
         }
         self.note(format!(
@@ -1610,7 +1987,9 @@ impl World {
                     continue;
                 }
                 for &idx in &order {
-                    if self.relay[idx].withdrawn {
+                    if self.relay[idx].withdrawn
+                        || (self.relay[idx].named.rogue.is_some() && self.relay[idx].author == m)
+                    {
                         continue;
                     }
                     if self.regime == Regime::Causal
